@@ -173,9 +173,10 @@ def oracle(case, io):
                 return "month-or-coarser spacing but tick %s is not the first of a month" % d.isoformat()
             if g >= 365 * 86400 * 10 ** 6 and d.month != 1:
                 return "yearly spacing but tick %s is not 1 January" % d.isoformat()
-        if max(gaps) > 2 * min(gaps):
-            return "consecutive gaps differ by more than a factor of two: %s and %s" % (
-                _d.timedelta(microseconds=min(gaps)), _d.timedelta(microseconds=max(gaps)))
+        for g1, g2 in zip(gaps, gaps[1:]):       # CONSECUTIVE gaps, as the property says
+            if max(g1, g2) > 2 * min(g1, g2):
+                return "consecutive gaps differ by more than a factor of two: %s and %s" % (
+                    _d.timedelta(microseconds=g1), _d.timedelta(microseconds=g2))
     n = len(t)
     if not (m / 2.4 - 1 <= n <= 2.4 * m + 1):
         return "%d ticks for m = %d (allowed %.2f .. %.2f)" % (n, m, m / 2.4 - 1, 2.4 * m + 1)
